@@ -246,7 +246,8 @@ def gen_ops(rng, qs_hint):
 
 def random_history(rng):
     r = rng.random()
-    context = 'alone' if r < 0.6 else ('media' if r < 0.82 else 'import')
+    context = 'alone' if r < 0.55 else ('media' if r < 0.72 else ('import' if r < 0.84 else
+                                                                   ('media-nc' if r < 0.93 else 'import-nc')))
     raising = rng.random() < 0.4
     k = rng.random()
     asts = None
@@ -277,7 +278,9 @@ def random_history(rng):
     return History(context, start, gen_ops(rng, qs), raising=raising, kind=kind, asts=asts)
 
 
-BOUNDARY = ['', ' ', 'all', 'ALL', 'tv', 'tv,', ',tv', 'tv,,print', 'tv, print', 'print, PRINT', 'tv, ALL', 'all, tv',
+BOUNDARY = ['screen /*c*/ and (color)', 'tv /*c*/ , /*d*/ print', 'tv and ( /*c*/ color /*d*/ : /*e*/ 1px /*f*/ )',
+            'tv /*a*/ /*b*/ /*c*/ , print /*d*/', ' /*c*/ tv', 'not /*c*/ tv /*d*/ and /*e*/ (x)', 'tv /*c*/ print',
+            'tv /*c*/ and /*d*/ , print', '', ' ', 'all', 'ALL', 'tv', 'tv,', ',tv', 'tv,,print', 'tv, print', 'print, PRINT', 'tv, ALL', 'all, tv',
             'tv, all, print', '/*c*/', '/*c*/ tv', 'tv /*c*/', '/*a*/ tv /*b*/, /*c*/ print /*d*/', 'tv, /*c*/ print',
             '/*c*/ tv, print', 'not tv', 'only tv', 'not', 'only', 'and', 'tv and', 'tv and, print',
             '(color) and tv', 'tv and (color, print', 'tv and (color:, print', 'tv and (color:1, print',
@@ -301,7 +304,7 @@ def boundary_histories():
     ]
     for s in BOUNDARY:
         for i, ops in enumerate(ops_sets):
-            for context in (('alone', 'media', 'import') if i == 0 else ('alone',)):
+            for context in (('alone', 'media', 'import', 'media-nc', 'import-nc') if i == 0 else ('alone',)):
                 for raising in (False, True):
                     if context != 'alone' and any(ch in s for ch in '{};'):
                         continue
